@@ -15,10 +15,50 @@ CMP = {
 }
 
 
+class Mode:
+    """a value in the style of an enum member: totally ordered by its rank - and with an
+    attribute `value` of its own, which has nothing to do with that order"""
+    __slots__ = ('rank',)
+
+    def __init__(self, rank):
+        self.rank = rank
+
+    @property
+    def value(self):
+        return Mode(3 - self.rank)
+
+    def __eq__(self, other):
+        return self.rank == other.rank if isinstance(other, Mode) else NotImplemented
+
+    def __ne__(self, other):
+        return self.rank != other.rank if isinstance(other, Mode) else NotImplemented
+
+    def __lt__(self, other):
+        return self.rank < other.rank if isinstance(other, Mode) else NotImplemented
+
+    def __le__(self, other):
+        return self.rank <= other.rank if isinstance(other, Mode) else NotImplemented
+
+    def __gt__(self, other):
+        return self.rank > other.rank if isinstance(other, Mode) else NotImplemented
+
+    def __ge__(self, other):
+        return self.rank >= other.rank if isinstance(other, Mode) else NotImplemented
+
+    def __hash__(self):
+        return hash(('mode', self.rank))
+
+    def __repr__(self):
+        return 'Mode(%d)' % self.rank
+
+
 def decode(value):
-    """JSON encoding of values that are only partially ordered: {'set': [...]} and 'nan'"""
+    """JSON encoding of values that are not numbers: {'set': [...]} and 'nan' (only partially
+    ordered), {'mode': rank} (an object with a `value` attribute of its own)"""
     if isinstance(value, dict) and 'set' in value:
         return frozenset(value['set'])
+    if isinstance(value, dict) and 'mode' in value:
+        return Mode(value['mode'])
     if value == 'nan':
         return float('nan')
     return value
